@@ -1,5 +1,6 @@
 import Lean.Data.Json
 import DcmVerif.Model.Ext
+import DcmVerif.Model.Valid
 /-! `dcmdriver`: one JSON object per input line, one JSON answer per line.  Values of metadata
 are opaque strings (the harness sends the canonical JSON text of each value), so equality in the
 model is string equality. -/
@@ -134,6 +135,34 @@ def handle (j : Json) : Except String Json := do
     let aligned ← (← j.getObjVal? "aligned").getBool?
     let c ← clsOf (← (← j.getObjVal? "cls").getStr?)
     pure (Json.bool (metaValid ⟨eshape, esd⟩ ⟨ishape, isd, aligned⟩ c))
+  | "check_valid" =>
+    let top ← getStrList (← j.getObjVal? "top")
+    let vj ← j.getObjVal? "version"
+    let version ← if vj.isNull then pure none else (vj.getStr?).map some
+    let arows ← getNatList (← j.getObjVal? "arows")
+    let sdj ← j.getObjVal? "sd"
+    let sd ← if sdj.isNull then pure none else (sdj.getInt?).map some
+    let shape ← getNatList (← j.getObjVal? "shape")
+    let dj ← j.getObjVal? "dict"
+    let getD (c : Cls) : Except String (Option (List (String × CV.EShape))) := do
+      let v ← dj.getObjVal? (clsName c)
+      if v.isNull then pure none else
+        let l ← (← v.getArr?).toList.mapM fun e => do
+          let a ← e.getArr?
+          match a.toList with
+          | [k, n] =>
+            let ks ← k.getStr?
+            if n.isNull then pure (ks, CV.EShape.scalar) else pure (ks, CV.EShape.sized (← n.getNat?))
+          | _ => .error "bad dict entry"
+        pure (some l)
+    let d0 ← getD gconst; let d1 ← getD gslices; let d2 ← getD tsamples
+    let d3 ← getD tslices; let d4 ← getD vsamples; let d5 ← getD vslices
+    let dictF : Cls → Option (List (String × CV.EShape)) := fun cls =>
+      match cls with
+      | gconst => d0 | gslices => d1 | tsamples => d2 | tslices => d3 | vsamples => d4 | vslices => d5
+    let c : CV.Content := { topKeys := top, version := version, affineRows := arows, sliceDim := sd,
+                            shape := shape, dict := dictF }
+    pure (Json.bool (CV.checkValid c))
   | _ => .error s!"unknown op {op}"
 
 partial def loop (hin hout : IO.FS.Stream) : IO Unit := do
